@@ -197,7 +197,18 @@ def check_siblings(ctx):
         tf = sorted(_tokens(ffit.node.body, "fit", notes), key=str)
         tp = sorted(_tokens(fpar.node.body, "partial_fit", notes), key=str)
         n += 1
-        only_f = [t for t in tf if t not in tp]
+        # Any batch-independent prefix of fit is a reset R whatever its idiom: with fit = P o R and partial_fit = P,
+        # fit(A); partial_fit(B) == fit(A + B) follows from P's additivity alone (R6.2/R6.3), so such statements
+        # need no counterpart in partial_fit.
+        params = {a.arg for a in ffit.node.args.args[1:]}
+        excusable = []
+        for st in ffit.node.body:
+            if isinstance(st, ast.Expr) and isinstance(st.value, ast.Constant):
+                continue
+            if any(isinstance(x, ast.Name) and x.id in params for x in ast.walk(st)):
+                break
+            excusable.extend(_tokens([st], "fit", []))
+        only_f = [t for t in tf if t not in tp and t not in excusable]
         only_p = [t for t in tp if t not in tf]
         ctx.check(not only_f and not only_p, "R6.1", "%s.fit == reset o %s.partial_fit" % (cname, cname), fpar.node,
                   fpar, "after removing fit's resets the bodies differ: only in fit %s; only in partial_fit %s" %
